@@ -11,6 +11,7 @@ PARSER_FIELDS = {
     "version": Str, "error": Opt(Obj("utilities.Error")), "connection_close": Bool,
     "headers": DictOf(Str1), "adj": Obj("adjustments.Adjustments"),
     "path": Str1, "command": Str1, "request_uri": Str1, "query": Str1, "url_scheme": Str,
+    "first_line": Bytes, "fragment": Str1, "proxy_scheme": Str1, "proxy_netloc": Str1,
 }
 
 PARSER_INV = [
@@ -84,7 +85,8 @@ def install(reg):
             ("not-completed", "not self.completed"),
         ],
         modifies=["self.chunked", "self.content_length", "self.body_rcv", "self.version", "self.connection_close", "self.expect_continue",
-                  "self.headers"],
+                  "self.headers", "self.first_line", "self.command", "self.request_uri", "self.path", "self.query", "self.fragment",
+                  "self.proxy_scheme", "self.proxy_netloc", "self.url_scheme"],
         check_invariant=False, props=["inline-on-constants"]))
 
     reg.add(FuncContract("parser.HTTPRequestParser.close"))
@@ -113,4 +115,5 @@ def install(reg):
         ],
         modifies=["self.completed", "self.empty", "self.expect_continue", "self.headers_finished", "self.header_plus", "self.chunked",
                   "self.content_length", "self.header_bytes_received", "self.body_bytes_received", "self.body_rcv", "self.version", "self.error",
-                  "self.connection_close", "self.headers"]))
+                  "self.connection_close", "self.headers", "self.first_line", "self.command", "self.request_uri", "self.path", "self.query",
+                  "self.fragment", "self.proxy_scheme", "self.proxy_netloc", "self.url_scheme"]))
